@@ -294,6 +294,7 @@ static int d_tol(fx_t *F, int v, dv_t *o)
     int n = dvd(o, 0, 1e-6, X_BASE, 0, "1e-6");
     n = dvd(o, n, 0.0, X_ALT, 0, "0");
     n = dvd(o, n, -1.0, X_FAIL, 0, "-1");
+    n = dvd(o, n, NAN, X_ALT, 0, "NaN");
     return n;
 }
 static int d_iter(fx_t *F, int v, dv_t *o)
@@ -312,6 +313,8 @@ static int d_pvalue(fx_t *F, int v, dv_t *o)
     n = dvd(o, n, 0.0, X_FAIL, 0, "0");
     n = dvd(o, n, -0.5, X_FAIL, 0, "-0.5");
     n = dvd(o, n, 1.5, X_FAIL, 0, "1.5");
+    n = dvd(o, n, NAN, X_FAIL, 0, "NaN");
+    n = dvd(o, n, INFINITY, X_FAIL, 0, "inf");
     return n;
 }
 static int d_z0(fx_t *F, int v, dv_t *o)
